@@ -372,7 +372,7 @@ func (b *sqlBuilder) val(v Lit, where bool) {
 		return
 	}
 	asParam := rapid.IntRange(0, 9).Draw(b.t, "param?") < b.paramTenths
-	if where && v.Kind == "str" && b.forceParamStrings {
+	if where && (v.Kind == "str" || v.Kind == "time") && b.forceParamStrings {
 		asParam = true
 	}
 	if asParam {
@@ -513,15 +513,16 @@ func (b *sqlBuilder) columnValue(tb TableSpec, c ColSpec) Lit {
 
 // StmtOptions tune the statement generator.
 type StmtOptions struct {
-	Kinds             []string // allowed kinds; nil = insert update delete upsert
-	ParamTenths       int      // 0..10 probability that a value is a bound parameter (default 6)
-	ForceParamStrings bool     // strings/times in WHERE are always parameters
-	NoKeyAssignment   bool
-	NoOrderLimit      bool
-	NoMultiRowInsert  bool
-	NoNullAutoKey     bool
-	NoOmittedAutoKey  bool
-	NoUpsertOnUnique  bool // no INSERT..ON DUPLICATE KEY UPDATE on tables with a secondary unique index
+	Kinds                  []string // allowed kinds; nil = insert update delete upsert
+	ParamTenths            int      // 0..10 probability that a value is a bound parameter (default 6)
+	ForceParamStrings      bool     // strings/times in WHERE are always parameters
+	NoKeyAssignment        bool
+	NoOrderLimit           bool
+	NoMultiRowInsert       bool
+	NoNullAutoKey          bool
+	NoOmittedAutoKey       bool
+	NoOmittedAutoKeyUpsert bool // upserts always name the auto-increment key (AT refuses an upsert without key or unique value by design)
+	NoUpsertOnUnique       bool // no INSERT..ON DUPLICATE KEY UPDATE on tables with a secondary unique index
 }
 
 // DrawStmt draws one DML statement against table ti.
@@ -566,7 +567,7 @@ func DrawStmt(t *rapid.T, tables []TableSpec, opt StmtOptions) Stmt {
 		withCols := rapid.IntRange(0, 3).Draw(t, "withCols") > 0 || kind == "upsert"
 		cols := tb.Cols
 		omitKey := false
-		if withCols && tb.KeyShape == "bigint-auto" && !opt.NoOmittedAutoKey && rapid.Bool().Draw(t, "omitKey") {
+		if withCols && tb.KeyShape == "bigint-auto" && !opt.NoOmittedAutoKey && !(opt.NoOmittedAutoKeyUpsert && kind == "upsert") && rapid.Bool().Draw(t, "omitKey") {
 			cols = tb.Cols[1:]
 			omitKey = true
 			b.classes["auto-inc-omitted"] = true
